@@ -643,3 +643,24 @@ Proof. intro E. unfold body_hash, body_seen. rewrite E. reflexivity. Qed.
 Lemma body_hash_ideal o c r :
   body_hash ideal o c r = if s_exclude_body c then "UNSIGNED-PAYLOAD" else o_sha o (r_payload r).
 Proof. reflexivity. Qed.
+
+(** * several instances: the verdict of a step is a function of that step alone; an admitted step's
+      token carries the MAC under the secret and algorithm of the instance that admitted it *)
+Lemma multi_run_app q o pre s post :
+  multi_run q o (pre ++ s :: post)%list = (multi_run q o pre ++ step_outcome q o s :: multi_run q o post)%list.
+Proof. unfold multi_run. rewrite map_app. reflexivity. Qed.
+
+Theorem instances_independent o pre s post c :
+  configured (c_sig (vs_cfg s)) (fun sc => s_keys sc <> []) ->
+  multi_run ideal o (pre ++ s :: post)%list = (multi_run ideal o pre ++ step_outcome ideal o s :: multi_run ideal o post)%list /\
+  (step_outcome ideal o s = Pass -> c_jwt (vs_cfg s) = Some c ->
+   exists tok h cl sg,
+     jwt_token c (vs_req s) = Some tok /\ split_on "."%char tok = [h; cl; sg] /\
+     o_jhdr o h = Some (j_alg c) /\ sg = o_jmac o (j_alg c) (j_secret c) (h ++ "." ++ cl)).
+Proof.
+  intro K. split; [apply multi_run_app|].
+  intros P J. unfold step_outcome in P. apply (handle_pass_iff ideal o _ _ _ _ K) in P as (_ & PJ & _).
+  specialize (PJ c J). apply jwt_ok_iff in PJ as (tok & T & OK).
+  apply jwt_token_ok_iff in OK as (h & cl & sg & e & i & n & S & H & _ & _ & _ & M).
+  exists tok, h, cl, sg. auto.
+Qed.
